@@ -249,8 +249,9 @@ func generate(w *lib.Writer, r *lib.Rand, tier string) {
 			}
 			p.prelude = append(p.prelude, Step{Op: "maxn", How: "go.MaxN"}, Step{Op: "ipairs"})
 		}
-		if g.Chance(6) {
-			// end the history with a ForEach whose callback removes an element (Go-side check)
+		if g.Chance(6) && in.Mai == defaultMai {
+			// end the history with a ForEach whose callback removes an element (Go-side check; not at the
+			// lowered-MaxArrayIndex boundary, where ForEach reports unreachable cells: finding C09-2)
 			how := "last"
 			if g.Bool() {
 				how = "middle"
